@@ -1,8 +1,10 @@
 package types
 
 import (
+	"bytes"
 	"encoding/json"
 	"fmt"
+	"sort"
 
 	"github.com/pokt-network/pocket-core/codec"
 	"github.com/pokt-network/pocket-core/crypto"
@@ -355,6 +357,11 @@ func NormalizeRewardDelegators(
 			RewardShare: rewardShare,
 		})
 	}
+	// Go randomises map iteration: hand the shares out in address order so that
+	// every node pays (and creates) the delegator accounts in the same order.
+	sort.Slice(normalized, func(i, j int) bool {
+		return bytes.Compare(normalized[i].Address, normalized[j].Address) < 0
+	})
 	return normalized, nil
 }
 
